@@ -127,7 +127,12 @@ pub(super) fn execute_aggregate<'a, S: GraphSnapshot + 'a>(
                         if saw_float {
                             Value::Float(float_sum)
                         } else {
-                            Value::Int(int_sum as i64)
+                            // same rule as integer `+`: outside the 64-bit range the result
+                            // becomes a float instead of wrapping around
+                            match i64::try_from(int_sum) {
+                                Ok(v) => Value::Int(v),
+                                Err(_) => Value::Float(int_sum as f64),
+                            }
                         }
                     }
                     AggregateFunction::SumDistinct(expr) => {
@@ -166,7 +171,12 @@ pub(super) fn execute_aggregate<'a, S: GraphSnapshot + 'a>(
                         if saw_float {
                             Value::Float(float_sum)
                         } else {
-                            Value::Int(int_sum as i64)
+                            // same rule as integer `+`: outside the 64-bit range the result
+                            // becomes a float instead of wrapping around
+                            match i64::try_from(int_sum) {
+                                Ok(v) => Value::Int(v),
+                                Err(_) => Value::Float(int_sum as f64),
+                            }
                         }
                     }
                     AggregateFunction::Avg(expr) => {
